@@ -8,7 +8,7 @@ for m in rows:
     r = m.get('round', 1)
     first.setdefault(r, [0, 0])
     first[r][1] += 1
-    if not m['missed_before_strengthening']:
+    if not m['missed_before_strengthening'] or m.get('caught_at_first_contact_by_another_check_or_replay'):
         first[r][0] += 1
 out = ["# Seeded changes (sensitivity of the checks)", "",
 "Each directory holds one change to arcalot/arcaflow-engine that breaks a listed property while the tree still",
@@ -48,7 +48,7 @@ out += ["",
 "  cases return at once.",
 "* M37 is history dependent (a cache): the replay file holds the case that failed, which passes when replayed alone;",
 "  the shard's seed reproduces the sequence.",
-"* Caught on first contact (before any strengthening): " + ", ".join("round %s %d of %d" % (r, a, b) for r, (a, b) in sorted(first.items())) + ".",
+"* Caught on first contact by some check (before any strengthening; per kept change, duplicates counted): " + ", ".join("round %s %d of %d" % (r, a, b) for r, (a, b) in sorted(first.items())) + ".",
 "  Every miss was a generator (or sweep) that could not reach the needed shape, plus twice a rule that discarded the",
 "  symptom as another property's (a hang under a delay plan; a fallback verdict on a multi-output workflow). After the",
 "  strengthening listed above all %d kept changes are caught at the quick tier." % len(rows),
